@@ -141,10 +141,15 @@ def regen_facts(ctx):
         ctx.k_broken.append({"kind": "facts", "detail": "apiscan failed: %r" % (e,)})
         ok = False
     # C04 / C17 facts: the aws-lc wrapper functions translated to ownership action lists; where `unsafe` and shared state occur
-    for modname, rel in (("ffiscan", "Ffi.lean"), ("srcscan", "Source.lean")):
+    for modname, rel in (("ffiscan", "Ffi.lean"), ("srcscan", "Source.lean"), ("b64scan", "B64Src.lean")):
         try:
             mod = __import__(modname)
-            text = mod.emit()[0]
+            text, scan_info = mod.emit()
+            if modname == "b64scan":
+                off = [k for k, v in scan_info.items() if not v["available"]]
+                ctx.cov["b64_kernels_translated_from_source"] = {k: v["available"] for k, v in scan_info.items()}
+                if off:
+                    ctx.note("base64 kernels outside the translator's subset (theorems vacuous, exhaustive correspondence is the tie): %s" % ", ".join(off))
             path = os.path.join(LEAN, "PasetoModel", "Extracted", rel)
             old = open(path).read() if os.path.exists(path) else None
             if old != text:
